@@ -612,3 +612,235 @@ Proof.
     rewrite Forall_forall. intros t Ht. apply in_map_iff in Ht as (p' & <- & Hp').
     rewrite Forall_forall in Hok. destruct (Hok p' Hp') as (_ & _ & _ & _ & Hsq & _). exact Hsq.
 Qed.
+
+(* ------------------------------------------------------------------ *)
+(* constraint rows *)
+
+Lemma littext_true_ok names l tok : latex_names_ok names = true ->
+  littext true names l = Some tok -> lit_tok_ok tok.
+Proof.
+  intros Hn H.
+  assert (E : exists lt, littext false names l = Some lt).
+  { unfold littext in *. destruct (l =? 0); [discriminate|].
+    destruct (nthZ names (Z.abs l - 1)); [eexists; reflexivity|discriminate]. }
+  destruct E as (lt & E). destruct (littext_shape names l lt Hn E) as (pad & tok' & _ & _ & Ht & Hk).
+  rewrite Ht in H. inversion H; subst. exact Hk.
+Qed.
+
+Definition term_tok_ok (t : text) : Prop :=
+  token t = true /\ structural t = false /\ is_amp t = false /\ exists a, t = a ++ ["}"%char].
+
+Lemma coef_term_ok c tok : lit_tok_ok tok -> term_tok_ok (coef_text c ++ tok).
+Proof.
+  intros (Ht & Hs & Ha & _ & (a & Ea)). unfold coef_text. destruct (1 <? c).
+  - destruct (print_Z_head c) as (ch & r & E & Hch). split; [|split; [|split]].
+    + apply token_app; [|exact Ht]. pose proof (print_Z_token c) as T. unfold token in T.
+      apply andb_true_iff in T as [_ T]. exact T.
+    + rewrite E. cbn [app]. apply not_structural_head; apply (num_char_not ch _ Hch); reflexivity.
+    + rewrite E. cbn [app]. apply not_amp_head. apply (num_char_not ch _ Hch); reflexivity.
+    + exists (print_Z c ++ a). rewrite Ea, app_assoc. reflexivity.
+  - cbn [app]. split; [exact Ht|split; [exact Hs|split; [exact Ha|exists a; exact Ea]]].
+Qed.
+
+Definition plus_items (rest : list text) : list (text * text) :=
+  concat (map (fun t => [([SP], lit "+"); ([SP], t)]) rest).
+Definition sum_items (ts : list text) : list (text * text) :=
+  match ts with
+  | [] => [([SP], lit "0")]
+  | t :: rest => ([SP], t) :: plus_items rest
+  end.
+Definition cbody_items (ts : list text) (o : pbop) (v : Z) : list (text * text) :=
+  sum_items ts ++ [([SP], rel_text o); ([SP], print_Z v)].
+
+Lemma plus_render : forall rest,
+  concat (map (fun x => lit " + " ++ x) rest) = render (plus_items rest).
+Proof.
+  induction rest as [|t rest IH]; [reflexivity|].
+  cbn [map concat]. rewrite IH. unfold plus_items. cbn [map concat]. fold (plus_items rest).
+  rewrite render_app. cbn [render map concat fst snd lit list_ascii_of_string app].
+  rewrite <- !app_assoc. cbn [app]. reflexivity.
+Qed.
+
+Lemma cbody_render terms o v :
+  [SP] ++ constraint_body terms o v =
+  render (cbody_items (map (fun ct => coef_text (fst ct) ++ snd ct) terms) o v).
+Proof.
+  unfold constraint_body, cbody_items. rewrite render_app.
+  assert (E : forall ts, [SP] ++ match ts with [] => lit "0" | _ => join (lit " + ") ts end = render (sum_items ts)).
+  { intros [|t rest]; [reflexivity|]. cbn [join sum_items]. rewrite plus_render, render_cons. reflexivity. }
+  destruct terms as [|ct terms].
+  - cbn [map]. rewrite <- E. cbn [render map concat fst snd app].
+    repeat rewrite <- app_assoc. repeat rewrite app_nil_r. reflexivity.
+  - rewrite <- E. cbn [map]. cbn [render map concat fst snd app].
+    repeat rewrite <- app_assoc. repeat rewrite app_nil_r. reflexivity.
+Qed.
+
+Lemma write_constraint_render terms o v b :
+  write_constraint terms o v b =
+  render (head_items b ++ cbody_items (map (fun ct => coef_text (fst ct) ++ snd ct) terms) o v).
+Proof.
+  unfold write_constraint. rewrite render_app, <- cbody_render.
+  destruct b; cbn [head_items render map concat fst snd app lit list_ascii_of_string];
+    repeat rewrite <- app_assoc; reflexivity.
+Qed.
+
+Lemma plus_items_facts rest : Forall term_tok_ok rest ->
+  Forall item_ok (plus_items rest) /\ noamp (map snd (plus_items rest)) = true /\
+  nonstruct (map snd (plus_items rest)) = rest.
+Proof.
+  induction 1 as [|t rest (Ht & Hs & Ha & _) _ (I1 & I2 & I3)]; [repeat split; constructor|].
+  unfold plus_items. cbn [map concat]. fold (plus_items rest). split; [|split].
+  - constructor; [repeat split; cbn; try reflexivity; discriminate|].
+    constructor; [repeat split; cbn [fst snd]; try reflexivity; try discriminate; exact Ht|exact I1].
+  - rewrite map_app, noamp_app, I2. cbn [map fst snd noamp forallb]. rewrite Ha. reflexivity.
+  - unfold nonstruct in *. rewrite map_app, filter_app.
+    cbn [map fst snd filter]. change (structural (lit "+")) with true. rewrite Hs.
+    cbn [negb app]. f_equal. exact I3.
+Qed.
+
+Lemma rel_text_facts o : token (rel_text o) = true /\ structural (rel_text o) = false /\ is_amp (rel_text o) = false.
+Proof. destruct o; repeat split; reflexivity. Qed.
+
+Lemma print_Z_not_structural v : structural (print_Z v) = false /\ is_amp (print_Z v) = false.
+Proof.
+  destruct (print_Z_head v) as (ch & r & -> & H). split.
+  - apply not_structural_head; apply (num_char_not ch _ H); reflexivity.
+  - apply not_amp_head. apply (num_char_not ch _ H); reflexivity.
+Qed.
+
+Lemma cbody_items_facts ts o v : Forall term_tok_ok ts ->
+  Forall item_ok (cbody_items ts o v) /\ noamp (map snd (cbody_items ts o v)) = true /\
+  nonstruct (map snd (cbody_items ts o v)) =
+    (match ts with [] => [lit "0"] | _ => ts end) ++ [rel_text o; print_Z v].
+Proof.
+  intros H. unfold cbody_items. destruct (rel_text_facts o) as (R1 & R2 & R3).
+  destruct (print_Z_not_structural v) as (V1 & V2).
+  assert (Hs : Forall item_ok (sum_items ts) /\ noamp (map snd (sum_items ts)) = true /\
+               nonstruct (map snd (sum_items ts)) = match ts with [] => [lit "0"] | _ => ts end).
+  { destruct H as [|t rest (Ht & Hs & Ha & _) Hr].
+    - repeat split. repeat constructor; cbn; try reflexivity; discriminate.
+    - destruct (plus_items_facts rest Hr) as (I1 & I2 & I3). cbn [sum_items]. split; [|split].
+      + constructor; [repeat split; cbn [fst snd]; try reflexivity; try discriminate; exact Ht|exact I1].
+      + cbn [map fst snd noamp forallb]. rewrite Ha. exact I2.
+      + unfold nonstruct in *. cbn [map fst snd filter]. rewrite Hs. cbn [negb]. f_equal. exact I3. }
+  destruct Hs as (S1 & S2 & S3). split; [|split].
+  - apply Forall_app. split; [exact S1|].
+    constructor; [repeat split; cbn [fst snd]; try reflexivity; try discriminate; exact R1|].
+    constructor; [repeat split; cbn [fst snd]; try reflexivity; try discriminate; apply print_Z_token|constructor].
+  - rewrite map_app, noamp_app, S2. cbn [map fst snd noamp forallb]. rewrite R3, V2. reflexivity.
+  - unfold nonstruct in *. rewrite map_app, filter_app, S3. cbn [map fst snd filter]. rewrite R2, V1. reflexivity.
+Qed.
+
+Lemma decode_constraint_terms : forall ts o v,
+  decode_constraint (ts ++ [rel_text o; print_Z v]) =
+  RConstraint ts (match o with PGe => PGe | _ => PEq end) (print_Z v).
+Proof.
+  induction ts as [|t ts IH]; intros o v.
+  - destruct o; reflexivity.
+  - cbn [app]. specialize (IH o v).
+    destruct (ts ++ [rel_text o; print_Z v]) as [|x [|y r]] eqn:E.
+    + destruct ts; discriminate.
+    + destruct ts as [|? [|? ?]]; discriminate.
+    + cbn [decode_constraint]. cbn [decode_constraint] in IH. rewrite IH. reflexivity.
+Qed.
+
+Lemma constraint_row_good names c w : latex_names_ok names = true ->
+  constraint_row names c = Some w ->
+  exists r, constraint_lrow names c = Some r /\ good_row true w r.
+Proof.
+  intros Hn H. unfold constraint_row in H.
+  destruct (all_some (map (fun cl => littext true names (snd cl)) (pb_terms c))) as [lts|] eqn:El; [|discriminate].
+  inversion H; subst w. clear H.
+  set (terms := combine (map fst (pb_terms c)) lts).
+  set (ts := map (fun ct => coef_text (fst ct) ++ snd ct) terms).
+  assert (Hlts : Forall lit_tok_ok lts).
+  { clear terms ts. revert lts El. induction (pb_terms c) as [|cl l IH]; intros lts El.
+    - inversion El. constructor.
+    - cbn [map all_some] in El. destruct (littext true names (snd cl)) as [tok|] eqn:Et; [|discriminate].
+      destruct (all_some (map (fun cl0 => littext true names (snd cl0)) l)) as [r|] eqn:Er; [|discriminate].
+      inversion El; subst. constructor; [eapply littext_true_ok; eauto|apply IH; reflexivity]. }
+  assert (Hts : Forall term_tok_ok ts).
+  { subst ts terms. clear El. revert lts Hlts. induction (map fst (pb_terms c)) as [|k ks IH]; intros lts Hl.
+    - constructor.
+    - destruct Hl as [|tok lts Ht Hl]; [constructor|]. cbn [combine map fst snd].
+      constructor; [apply coef_term_ok, Ht|apply IH, Hl]. }
+  exists (RConstraint ts (match pb_op c with PGe => PGe | _ => PEq end) (print_Z (pb_deg c))). split.
+  - unfold constraint_lrow. change (fun cl : Z * Z => lit_token names (snd cl)) with (fun cl : Z * Z => littext true names (snd cl)).
+    rewrite El. reflexivity.
+  - intros b. destruct (head_items_facts b) as (H1 & q & Hq1 & Hq2 & Hq3).
+    destruct (cbody_items_facts ts (pb_op c) (pb_deg c) Hts) as (B1 & B2 & B3).
+    exists (head_items b ++ cbody_items ts (pb_op c) (pb_deg c)), q, (map snd (cbody_items ts (pb_op c) (pb_deg c))).
+    split; [apply write_constraint_render|].
+    split; [apply Forall_app; split; assumption|].
+    split; [rewrite map_app, Hq1, <- app_assoc; reflexivity|].
+    split; [exact Hq2|]. split; [exact B2|]. split; [exact Hq3|].
+    unfold decode_row. fold (nonstruct (map snd (cbody_items ts (pb_op c) (pb_deg c)))). rewrite B3.
+    rewrite decode_constraint_terms.
+    destruct Hts as [|t [|t' rest] (_ & _ & _ & (a & Ea)) Hr]; try reflexivity.
+    cbn [drop_zero_sum]. rewrite text_eqb_neq; [reflexivity|].
+    rewrite Ea. intros E. destruct a as [|x [|y a']]; discriminate E.
+Qed.
+
+(* ------------------------------------------------------------------ *)
+(* the theorem *)
+
+Theorem latex_rows_proved names split compact f t :
+  latex_names_ok names = true ->
+  print_latex names split compact f = Some t ->
+  exists rows, formula_lrows names f = Some rows /\
+               rows_of_latex (is_opb f) t = (negb (nonempty rows), rows).
+Proof.
+  intros Hn H. unfold print_latex in H.
+  destruct (formula_rows compact names f) as [ws|] eqn:Ew; [|discriminate].
+  inversion H; subst t. clear H. destruct f as [n F|n C]; cbn [formula_rows formula_lrows is_opb] in *.
+  - destruct (all_some_shape (clause_row compact names) (clause_lrow names) (good_row false))
+      with (l := F) (ys := ws) as (rows & Er & Hg); [|exact Ew|].
+    + intros c w Hc. destruct (clause_row_good compact names c w Hn Hc) as (r & E & G). exists r. auto.
+    + exists rows. split; [exact Er|]. apply print_align_decodes, Hg.
+  - destruct (all_some_shape (constraint_row names) (constraint_lrow names) (good_row true))
+      with (l := C) (ys := ws) as (rows & Er & Hg); [|exact Ew|].
+    + intros c w Hc. destruct (constraint_row_good names c w Hn Hc) as (r & E & G). exists r. auto.
+    + exists rows. split; [exact Er|]. apply print_align_decodes, Hg.
+Qed.
+
+(* the number of rows is the number of clauses / constraints *)
+Lemma formula_lrows_length names f rows : formula_lrows names f = Some rows ->
+  length rows = length (constraints f).
+Proof.
+  destruct f as [n F|n C]; cbn [formula_lrows constraints]; intros H.
+  - rewrite map_length. symmetry. eapply all_some_length; eauto.
+  - symmetry. eapply all_some_length; eauto.
+Qed.
+
+(* the writer fails (KeyError) exactly when some literal has no name *)
+Lemma print_latex_defined names split compact f :
+  (forall c l, In c (constraints f) -> In l (map snd (pb_terms c)) -> l <> 0 /\ Z.abs l <= len names) ->
+  exists t, print_latex names split compact f = Some t.
+Proof.
+  intros H.
+  assert (Hlit : forall st l, l <> 0 -> Z.abs l <= len names -> exists lt, littext st names l = Some lt).
+  { intros st l Hnz Hle. unfold littext. destruct (l =? 0) eqn:E; [lia|].
+    assert (Hn : forall (ns : list (list ascii)) i, 0 <= i < len ns -> exists nm, nthZ ns i = Some nm).
+    { induction ns as [|x ns IH]; intros i Hi; [unfold len in Hi; cbn in Hi; lia|].
+      cbn [nthZ]. destruct (i =? 0) eqn:Ei; [eexists; reflexivity|].
+      apply IH. rewrite len_cons in Hi. lia. }
+    destruct (Hn names (Z.abs l - 1)) as (nm & ->); [lia|]. eexists; reflexivity. }
+  assert (Hall : forall {A B} (g : A -> option B) l, (forall x, In x l -> exists y, g x = Some y) ->
+                 exists ys, all_some (map g l) = Some ys).
+  { intros A B g l. induction l as [|x l IH]; intros Hx; [exists []; reflexivity|].
+    destruct (Hx x (or_introl eq_refl)) as (y & Ey). destruct IH as (ys & Eys); [intros z Hz; apply Hx; right; exact Hz|].
+    exists (y :: ys). cbn [map all_some]. rewrite Ey, Eys. reflexivity. }
+  unfold print_latex. destruct f as [n F|n C]; cbn [formula_rows constraints] in *.
+  - destruct (Hall _ _ (clause_row compact names) F) as (ws & ->); [|eexists; reflexivity].
+    intros c Hc. unfold clause_row.
+    destruct (Hall _ _ (littext false names) c) as (lts & ->); [|eexists; reflexivity].
+    intros l Hl. destruct (H (clause_pbc c) l) as [Hnz Hle].
+    + apply in_map. exact Hc.
+    + cbn [clause_pbc pb_terms]. rewrite map_map. cbn [snd]. rewrite map_id. exact Hl.
+    + apply Hlit; assumption.
+  - destruct (Hall _ _ (constraint_row names) C) as (ws & ->); [|eexists; reflexivity].
+    intros c Hc. unfold constraint_row.
+    destruct (Hall _ _ (fun cl : Z * Z => littext true names (snd cl)) (pb_terms c)) as (lts & ->); [|eexists; reflexivity].
+    intros cl Hcl. destruct (H c (snd cl) Hc) as [Hnz Hle]; [apply in_map; exact Hcl|].
+    apply Hlit; assumption.
+Qed.
